@@ -97,7 +97,7 @@ Definition step (s : st) (t : nat) (a : act) : res :=
       end
   | ASpawn c k =>
       if Nat.eqb c t || negb (Nat.ltb c (length (ths s))) || started (getth s c) || negb (Nat.leb k (refs x))
-         || lends_from s t
+         || (lends_from s t && Nat.leb (refs x - k) 0)      (* a lender keeps the handle it has lent *)
       then Stuck else
       let cp := tick (clk x) t in
       let s1 := with_th s t {| clk := cp; pend := pend x; refs := refs x - k; excl := false;
